@@ -712,8 +712,18 @@ def gen_ns_validation(rng, n):
     for i in range(n):
         f = rand_fields(rng, 1.0)
         f["ns"] = rng.choice([999999999, 1000000000, 1000000001, 2147483647, 0])
-        k = i % 4
-        if k == 0:
+        k = i % 5
+        if k == 4:
+            # the (seconds, nanoseconds) constructors take the pair as it is (no carry, no refusal), all of them alike
+            t = interesting_instant(rng) if rng.random() < 0.5 else rng.randint(-10**10, 10**10)
+            via = rng.choice(["utc", "dt", "fromlocal", "zone"])
+            if via == "fromlocal":
+                yield {"op": "fromlocal", "a": {"t": W(t), "ns": f["ns"], "type": rand_type(rng)}}
+            elif via == "zone":
+                yield {"op": "localtime", "a": {"u": W(t), "ns": f["ns"]}}
+            else:
+                yield {"op": "gmtime", "a": {"t": W(t), "ns": f["ns"], "via": via}}
+        elif k == 0:
             f["via"] = rng.choice(["utc", "dt"]); yield {"op": "timegm", "a": f}
         elif k == 1:
             f["type"] = rand_type(rng); yield {"op": "newdt", "a": f}
